@@ -1,5 +1,10 @@
 package main
 
-import "encoding/json"
+import (
+	"encoding/json"
+	"go/format"
+)
 
 func jsonUnmarshal(b []byte, v interface{}) error { return json.Unmarshal(b, v) }
+
+func formatSource(src []byte) ([]byte, error) { return format.Source(src) }
